@@ -388,3 +388,55 @@ pub fn rand_adf(rng: &mut StdRng, n: usize, id: String) -> AdfCase {
     }
     AdfCase { id, labels: default_labels(n), asts }
 }
+
+/// A composed framework: independent blocks (random ADFs of 1-5 statements each) interleaved at random positions, plus observer
+/// statements whose conditions mention block statements only. Returns the case, the blocks and the observers (0-based positions).
+/// The decomposition is only a CLAIM of the harness; TLC verifies it on the logged ASTs before it uses it.
+pub fn composed_adf(rng: &mut StdRng, id: String, nmin: usize, nmax: usize) -> (AdfCase, Vec<Vec<usize>>, Vec<usize>) {
+    let n = rng.gen_range(nmin..=nmax);
+    let nobs = rng.gen_range(0..=3usize.min(n / 4));
+    let nbase = n - nobs;
+    // block sizes
+    let mut sizes: Vec<usize> = Vec::new();
+    let mut left = nbase;
+    while left > 0 {
+        let m = rng.gen_range(1..=5usize.min(left));
+        sizes.push(m);
+        left -= m;
+    }
+    // random interleaving of all positions
+    let mut perm: Vec<usize> = (0..n).collect();
+    for i in 0..n {
+        let j = rng.gen_range(i..n);
+        perm.swap(i, j);
+    }
+    let mut asts: Vec<Ast> = vec![Ast::Top; n];
+    let mut blocks: Vec<Vec<usize>> = Vec::new();
+    let mut at = 0;
+    for (k, m) in sizes.iter().enumerate() {
+        let mut blk: Vec<usize> = perm[at..at + m].to_vec();
+        at += m;
+        if rng.gen_bool(0.5) {
+            blk.sort();
+        }
+        let local = rand_adf(rng, *m, format!("{}b{}", id, k));
+        for i in 0..*m {
+            let b2 = blk.clone();
+            asts[blk[i]] = local.asts[i].map_atoms(&move |a| b2[a]);
+        }
+        blocks.push(blk);
+    }
+    let base: Vec<usize> = perm[..nbase].to_vec();
+    let observers: Vec<usize> = perm[nbase..].to_vec();
+    for o in observers.iter() {
+        let k = rng.gen_range(1..=6usize.min(nbase));
+        let mut sup = base.clone();
+        for i in 0..k {
+            let j = rng.gen_range(i..sup.len());
+            sup.swap(i, j);
+        }
+        sup.truncate(k);
+        asts[*o] = if rng.gen_bool(0.5) { from_tt(rand_tt(rng, k.min(4)), &sup[..k.min(4)], rng.gen_range(0..4)) } else { rand_ast(rng, n, 3, Some(&sup)) };
+    }
+    (AdfCase { id, labels: default_labels(n), asts }, blocks, observers)
+}
